@@ -352,6 +352,7 @@ func TestVerifC16(t *testing.T) {
 		os.Remove(path)
 	}
 	vSameIdAdds(t, r, e)
+	vEverySecond(t, r, e)
 	vEvictionSameScan(t, r, e)
 	vConcurrent(t, r, e)
 	r.Write()
@@ -428,6 +429,66 @@ func vEvictionSameScan(t *testing.T, r *Report, e Env) {
 		}
 		db.Close()
 		os.Remove(path)
+	}
+}
+
+// vEverySecond: a recurring job with an occurrence every second, the partition polled every 50 ms for
+// 4.3 s: one request per occurrence (3 to 5 of them), none before its occurrence.
+func vEverySecond(t *testing.T, r *Report, e Env) {
+	var mu sync.Mutex
+	var at []time.Time
+	srv := httptest.NewServer(http.HandlerFunc(func(w http.ResponseWriter, req *http.Request) {
+		mu.Lock()
+		at = append(at, time.Now())
+		mu.Unlock()
+		fmt.Fprintln(w, "ok")
+	}))
+	defer srv.Close()
+	path := filepath.Join(e.Out, fmt.Sprintf("crolt-everysec-%d.db", e.Batch))
+	os.Remove(path)
+	db, err := bolt.Open(path, 0600, &bolt.Options{Timeout: 5 * time.Second})
+	if err != nil {
+		t.Fatal(err)
+	}
+	defer func() { db.Close(); os.Remove(path) }()
+	c, err := NewCron(db, 1, 0, 700*time.Millisecond)
+	if err != nil {
+		t.Fatal(err)
+	}
+	j, _ := NewJob("acct", "every", "* * * * * * *")
+	j.URL = srv.URL + "/every"
+	start := time.Now()
+	if err := c.Add(j); err != nil {
+		r.Violate("", "Add of an every-second job failed: "+err.Error(), J{"phase": "every-second"})
+		return
+	}
+	canary := 0
+	for time.Since(start) < 4300*time.Millisecond {
+		t0 := time.Now()
+		if err := c.DB.Update(c.work("0")); err != nil {
+			r.Violate("", "work() failed: "+err.Error(), J{"phase": "every-second"})
+			return
+		}
+		if time.Since(t0) > 400*time.Millisecond {
+			canary++
+		}
+		time.Sleep(50 * time.Millisecond)
+	}
+	mu.Lock()
+	fires := append([]time.Time{}, at...)
+	mu.Unlock()
+	r.Case(true, fmt.Sprint("every-second", e.Batch))
+	r.Count("crolt_every_second_runs", 1)
+	var offs []int64
+	for _, f := range fires {
+		offs = append(offs, f.Sub(start).Milliseconds())
+	}
+	if canary > 0 {
+		r.Inconclusive("slow polls")
+		return
+	}
+	if len(fires) < 3 || len(fires) > 5 {
+		r.Violate("", fmt.Sprintf("an every-second job polled every 50 ms for 4.3 s sent %d requests (3 to 5 occurrences fall into that time)", len(fires)), J{"phase": "every-second", "fires_ms_after_add": offs})
 	}
 }
 
